@@ -10,8 +10,12 @@ import (
 	"context"
 	"errors"
 	"fmt"
+	mathrand "math/rand"
 	"os"
+	"runtime"
+	"strconv"
 	"sync"
+	"sync/atomic"
 	"time"
 
 	btcSecp256k1 "github.com/btcsuite/btcd/btcec/v2"
@@ -160,8 +164,12 @@ type consumer struct {
 }
 
 func main() {
+	if len(os.Args) == 6 && os.Args[1] == "-stress" {
+		stress(os.Args[2], os.Args[3], os.Args[4], os.Args[5])
+		return
+	}
 	if len(os.Args) != 3 {
-		hx.Die("usage: rewardserver behaviours.json trace.ndjson")
+		hx.Die("usage: rewardserver behaviours.json trace.ndjson | rewardserver -stress rounds workers seed trace.ndjson")
 	}
 	var behs [][]step
 	hx.ReadJSON(os.Args[1], &behs)
@@ -307,4 +315,165 @@ func tmpBase() string {
 		return "/dev/shm"
 	}
 	return ""
+}
+
+// ---- concurrent phase --------------------------------------------------------------------------
+
+type bcall struct {
+	W        int    `json:"w"`
+	Cu       int    `json:"cu"`
+	Existing int    `json:"existing"`
+	Updated  bool   `json:"updated"`
+	T0       uint64 `json:"t0"` // global sequence number taken right before / after the SendNewProof call
+	T1       uint64 `json:"t1"`
+}
+
+type brec struct {
+	Ev      string  `json:"ev"`
+	Round   int     `json:"round"`
+	Sid     uint64  `json:"sid"`
+	SeedCu  int     `json:"seedcu"`
+	Calls   []bcall `json:"calls"`
+	Overlap int     `json:"overlap"` // pairs of calls whose [t0,t1] intervals intersect
+	Kept    int     `json:"kept"`    // CuSum found in the RewardDB after the snapshot (0 = none)
+	Subs    []int   `json:"subs"`    // CuSums submitted for this session by the epoch update
+}
+
+// stress: rounds x (one seed proof, then `workers` goroutines released together by a spinning barrier,
+// each calling SendNewProof for the same epoch / consumer / session with a different CuSum).  Hook free,
+// so whether two calls really interleave inside saveProofInMemory is up to the scheduler: the number of
+// rounds makes a lost update practically certain to show (see docs/notes/C29.md).
+func stress(roundsS, workersS, seedS, tracePath string) {
+	rounds, _ := strconv.Atoi(roundsS)
+	workers, _ := strconv.Atoi(workersS)
+	seed, _ := strconv.ParseInt(seedS, 10, 64)
+	if rounds < 1 || workers < 2 {
+		hx.Die("stress: need rounds >= 1 and workers >= 2")
+	}
+	out := hx.NewOut(tracePath)
+	defer out.Close()
+	rand.InitRandomSeed()
+	utils.SetGlobalLoggingLevel("fatal")
+	rng := mathrand.New(mathrand.NewSource(seed))
+
+	key, addr := sigs.GenerateFloatingKey()
+	a := addr.String()
+	addrIdx := map[string]int{a: 1}
+	mk := func(e int, s uint64, cu int, relayNum uint64) *pairingtypes.RelaySession {
+		p := &pairingtypes.RelaySession{
+			Provider: providerAddr, ContentHash: []byte{1}, SessionId: s, SpecId: specID,
+			CuSum: uint64(cu), Epoch: int64(e), RelayNum: relayNum, LavaChainId: "lava",
+		}
+		sig, err := sigs.Sign(key, *p)
+		if err != nil {
+			hx.Die("sign: %v", err)
+		}
+		p.Sig = sig
+		return p
+	}
+	dir, err := os.MkdirTemp(tmpBase(), "verif_c29s_")
+	if err != nil {
+		hx.Die("tempdir: %v", err)
+	}
+	defer os.RemoveAll(dir)
+	txs := &txSender{okNew: true, okRetry: true, submitted: map[pf]bool{}, consumers: addrIdx}
+	rdb := rewardserver.NewRewardDB()
+	rws := rewardserver.NewRewardServer(txs, nil, rdb, dir, snapThreshold, 1000000, nil)
+	rws.AddDataBase(specID, providerAddr, 0)
+
+	const epoch = 1
+	sidOf := func(r int) uint64 { return uint64(100000 + r) }
+	// CuSum of worker w in round r: 10 * a seeded permutation of 1..workers
+	cus := make([][]int, rounds+1)
+	for r := 1; r <= rounds; r++ {
+		perm := rng.Perm(workers)
+		cus[r] = make([]int, workers)
+		for w := 0; w < workers; w++ {
+			cus[r][w] = 10 * (perm[w] + 1)
+		}
+	}
+	recs := make([]brec, rounds+1)
+	for r := 1; r <= rounds; r++ {
+		recs[r] = brec{Ev: "burst", Round: r, Sid: sidOf(r), SeedCu: 1, Calls: make([]bcall, workers), Subs: []int{}}
+	}
+	var seq atomic.Uint64
+	var released, ready, finished atomic.Int64
+	ctx := context.Background()
+	for w := 0; w < workers; w++ {
+		go func(w int) {
+			for r := 1; r <= rounds; r++ {
+				p := mk(epoch, sidOf(r), cus[r][w], 1) // signed before the barrier
+				ready.Add(1)
+				for released.Load() < int64(r) {
+					runtime.Gosched()
+				}
+				t0 := seq.Add(1)
+				ex, upd := rws.SendNewProof(ctx, p, epoch, a, "jsonrpc")
+				t1 := seq.Add(1)
+				recs[r].Calls[w] = bcall{W: w, Cu: cus[r][w], Existing: int(ex), Updated: upd, T0: t0, T1: t1}
+				finished.Add(1)
+			}
+		}(w)
+	}
+	for r := 1; r <= rounds; r++ {
+		rws.SendNewProof(ctx, mk(epoch, sidOf(r), 1, 1), epoch, a, "jsonrpc")
+		for ready.Load() < int64(r*workers) {
+			runtime.Gosched()
+		}
+		released.Store(int64(r))
+		for finished.Load() < int64(r*workers) {
+			runtime.Gosched()
+		}
+	}
+	// quiescence: one snapshot (marker proof, see the snap step above), then read what was kept
+	rws.SendNewProof(ctx, mk(markerEpoch, markerSid, 1, snapThreshold), markerEpoch, a, "jsonrpc")
+	deadline := time.Now().Add(4 * waitMax)
+	for {
+		p, err := rdb.FindOne(markerEpoch, a, specID+a, markerSid)
+		if err == nil && p != nil && p.CuSum == 1 {
+			break
+		}
+		if time.Now().After(deadline) {
+			hx.Die("stress: snapshot did not reach the DB")
+		}
+		time.Sleep(time.Millisecond)
+	}
+	for r := 1; r <= rounds; r++ {
+		if p, err := rdb.FindOne(epoch, a, specID+a, sidOf(r)); err == nil && p != nil {
+			recs[r].Kept = int(p.CuSum)
+		}
+	}
+	// one epoch update: epoch 1 has left the active window, everything is claimed
+	done := make(chan struct{})
+	txs.mu.Lock()
+	txs.calls, txs.earCalls, txs.done = nil, 0, done
+	txs.mu.Unlock()
+	rws.UpdateEpoch(epoch + window + 1)
+	select {
+	case <-done:
+	case <-time.After(4 * waitMax):
+		hx.Die("stress: epoch update did not finish")
+	}
+	txs.mu.Lock()
+	for _, c := range txs.calls {
+		for _, p := range c.Proofs {
+			if p.S >= 100001 && p.S <= 100000+rounds {
+				r := p.S - 100000
+				recs[r].Subs = append(recs[r].Subs, p.Cu)
+			}
+		}
+	}
+	txs.mu.Unlock()
+	for r := 1; r <= rounds; r++ {
+		c := recs[r].Calls
+		for i := 0; i < len(c); i++ {
+			for j := i + 1; j < len(c); j++ {
+				if c[i].T0 < c[j].T1 && c[j].T0 < c[i].T1 {
+					recs[r].Overlap++
+				}
+			}
+		}
+		out.Emit(recs[r])
+	}
+	rws.CloseAllDataBases()
 }
